@@ -96,7 +96,7 @@ def _imm_state(dlen, nl, other):
     X.mk_immutable(X.share_path(0), dlen, _ILEASES[:nl])
     if other:
         X.mk_immutable(X.share_path(3), 7, _ILEASES[:1])
-    FS.fileutil.avail = 10 ** 12
+    FS.fileutil.avail = 2 ** 80
 
 
 def _imm_read(side_name, dlen, nl, other, shnum, off, ln):
@@ -152,7 +152,7 @@ def _mut_state(dl, elo, has2, other=2):
     X.mk_mutable(X.share_path(0), dl, elo, list(_SLOTS), [])
     if has2:
         X.mk_mutable(X.share_path(other), 5, DATA_OFFSET + 9, list(_SLOTS), [])
-    FS.fileutil.avail = 10 ** 12
+    FS.fileutil.avail = 2 ** 80
 
 
 _SHARE_ARGS = [[0], [], [2, 0], [0, 1]]          # [] = every share; the second share (if any) is number 2, in the last mode number 1
@@ -314,7 +314,7 @@ def _upload(side_name, size, chunks, has1, do_close):
     FS.split_hint = 0xc
     if has1:
         X.mk_immutable(X.share_path(1), 9, _ILEASES[:1])
-    FS.fileutil.avail = 10 ** 15
+    FS.fileutil.avail = 2 ** 80
     w = World()
     side = getattr(w, side_name)
     (already, writers) = fired(side.allocate_buckets(X.SI, RS, CS, set([0, 1]), size, _Canary()))
@@ -461,7 +461,7 @@ def _rtw(side_name, dl, elo, has2, renewing, secrets, tw, rv):
     X.mk_mutable(X.share_path(0), dl, elo, _mslots(renewing), [])
     if has2:
         X.mk_mutable(X.share_path(2), 5, DATA_OFFSET + 9, _mslots(False), [])
-    FS.fileutil.avail = 10 ** 15
+    FS.fileutil.avail = 2 ** 80
     w = World()
     out = _outcome(getattr(w, side_name).slot_testv_and_readv_and_writev(X.SI, secrets, tw, rv))
     return out, FS.nops, snapshot()
@@ -504,6 +504,7 @@ def _h_rtw(dl, elo, has2, good_we, renewing, tl, so, sl, wo, wl, nlkind, newlen,
         (ro, rl, p) = (0, 1, 0)
     if vary != "new-length":
         newlen = 7
+    assume(wo + wl <= MAX_SIZE)                    # (a write beyond the maximum container size fails on both paths: C23)
     nl = None if nlkind == 0 else (0 if nlkind == 1 else newlen)
     if nlkind == 2:
         assume(newlen > 0)
@@ -578,7 +579,7 @@ def _h_rtw_bad_enabler(has2, bad0, bad2, create1, given_good):
         X.mk_mutable(X.share_path(0), dl, elo, _mslots(False), [], we=X.WE_BAD if bad0 else X.WE_GOOD)
         if has2:
             X.mk_mutable(X.share_path(2), 5, DATA_OFFSET + 9, _mslots(False), [], we=X.WE_BAD if bad2 else X.WE_GOOD)
-        FS.fileutil.avail = 10 ** 15
+        FS.fileutil.avail = 2 ** 80
         w = World()
         tw = {0: ([], [(0, ProvBuf.src("new", 3))], None)}
         if create1:
@@ -1026,7 +1027,16 @@ def h_server_write_chunk(kind: int, offset: int, ln: int, fin_at: int, conf_at: 
 
 
 def _h_server_write_chunk(kind, offset, ln, fin_at, conf_at, r0, r1, p):
-    kind, fin_at, conf_at = _pin(kind, 0, 2), _pin(fin_at, 0, 4), _pin(conf_at, 0, 4)
+    mode = B["mode"]                       # "ok": nothing refused; "conflict": a symbolic piece is refused; "bad-header"
+    if mode == "bad-header":
+        kind = _pin(kind, 1, 2) if kind >= 1 else 1
+        (fin_at, conf_at, ln, p) = (0, 99, 5, 0)
+    else:
+        kind = 0
+        if mode == "conflict":
+            (fin_at, conf_at) = (99, _pin(conf_at, 0, 4))          # (the loop does not look at `finished` before its end)
+        else:
+            (fin_at, conf_at) = (_pin(fin_at, 0, 4), 99)
     X.reset()
     w = World()
     bucket = _RecBucket(fin_at, conf_at, r0, r1)
